@@ -186,7 +186,7 @@ def model_compare(ctx, checked, tag):
     """M: scheme_of_script_impl (Coq) = generate_sdmx (engine) on the abstract scripts"""
     cases = [(s, r) for s, r in checked if r is not None and r["eng"] is not None and not any(k == "other" for k, *_ in r["abs"])]
     exprs = [MODEL_EXPR.format(s=coq_script(r["abs"])) for _, r in cases]
-    res = coq_eval(G.HEADER, exprs, f"c25_{tag}", shard=max(40, len(exprs) // 16 + 1))
+    res = coq_eval(G.HEADER, exprs, f"c25_{tag}", shard=max(150, len(exprs) // 16 + 1))
     bad = 0
     for (src, r), m in zip(cases, res):
         m_items, m_rs, m_ud, m_vi, m_vs = m
